@@ -878,6 +878,9 @@ def oracle(case):
         s = signature(case, f)
         if s not in seen:
             seen.add(s); out.append(f)
+    # the S and E conversions that write a name unchecked fire in every case with such a name (finding of the
+    # unmodified tree): listed last, so that summaries by first failure show whatever else is wrong
+    out.sort(key=lambda f: 1 if re.match(r"unnameable-translated\[(Gfa:)?[SELC]\]", f) else 0)
     return out
 
 
